@@ -114,7 +114,11 @@ def build_pool(seed, k):
         if mn not in mods:
             continue
         nums = gen.pool(mn)[:2] + [w for w in gen.class_sweep(mn, nbase=1, classes=(string.digits,)) if w][:25]
-        for v in rnd.sample(nums, min(8, len(nums))):
+        # dates of birth on either side of the three system dates used below
+        lay = c12.DATE_LAYOUT.get(mn)
+        sl = (slice(0, 2), slice(2, 4), slice(4, 6)) if mn == 'se.personnummer' else (lay[0], lay[2], lay[3]) if lay and lay[0] is not None else None
+        dated = gen.leap_numbers(mn, sl, dates=(('85', '03', '04'), ('95', '06', '15'), ('25', '06', '15'), ('50', '01', '02'), ('99', '12', '31'))) if sl else []
+        for v in dated[:10] + rnd.sample(nums, min(8, len(nums))):
             for ol in gen.option_lists(mn):
                 for clk in ('1990-01-01', '2031-01-01', '2100-12-31'):
                     c = call(mn, 'validate', v, **gen.dec_opts(ol))
